@@ -292,7 +292,7 @@ func checkC01(c *Ctx, r *Report) {
 				}
 			}
 			if n == proxyPkg+".finalizeAndRespond" {
-				s := atomStr(call.Common().Args[1])
+				s := atomStr(argOf(call, "resp", 1))
 				if strings.HasSuffix(s, "Cached.Entry.Data") {
 					bodyRoot = strings.TrimSuffix(s, ".Data")
 				}
@@ -447,7 +447,28 @@ func checkServedValidators(c *Ctx, r *Report, li *LockInfo) {
 			field := map[string]string{"ETag": "ETag", "Last-Modified": "LastModified"}[name]
 			fromStored := derivesFrom(args[2], func(v ssa.Value) bool {
 				_, pth := fieldPath(v)
-				return len(pth) >= 2 && pth[len(pth)-1] == field && pth[len(pth)-2] == "Object"
+				if len(pth) >= 2 && pth[len(pth)-1] == field && pth[len(pth)-2] == "Object" {
+					return true
+				}
+				// the stored object may be handed around by itself (stored *cachedRequestInfo): the field of that type
+				var fv *types.Var
+				switch y := v.(type) {
+				case *ssa.FieldAddr, *ssa.Field:
+					fv, _, _ = fieldOf(y)
+				}
+				if fv == nil || fname(fv) != field || fv.Pkg() == nil {
+					return false
+				}
+				if tn, ok := scopeLookupType(fv.Pkg(), "cachedRequestInfo").(*types.TypeName); ok {
+					if st, ok := tn.Type().Underlying().(*types.Struct); ok {
+						for i := 0; i < st.NumFields(); i++ {
+							if st.Field(i) == fv {
+								return true
+							}
+						}
+					}
+				}
+				return false
 			})
 			if !fromStored {
 				return
@@ -456,7 +477,7 @@ func checkServedValidators(c *Ctx, r *Report, li *LockInfo) {
 			fs := factStrsCtx(li, f, call.(ssa.Instruction))
 			ok := false
 			for k := range fs {
-				if !strings.Contains(k, ".Object."+field) {
+				if !strings.Contains(k, "."+field) {
 					continue
 				}
 				switch {
